@@ -36,12 +36,13 @@ func tv(s string) atrun.Arg   { return atrun.Arg{T: "time", V: s} }
 func bv(hex string) atrun.Arg { return atrun.Arg{T: "bytes", V: hex} }
 
 type sgen struct {
-	faults   bool // arm database faults at operations of segments without a global transaction
-	noInterp bool // DSN without interpolateParams: bound arguments reach the target as driver.ErrSkip + prepared statement
-	noNow    bool // programs with a global transaction: the AT proxy reads the server clock too (undo_log), so now() values differ
-	r        *hutil.Rng
-	tmp      int
-	uniq     int
+	noParseTime bool // DSN with parseTime=false
+	faults      bool // arm database faults at operations of segments without a global transaction
+	noInterp    bool // DSN without interpolateParams: bound arguments reach the target as driver.ErrSkip + prepared statement
+	noNow       bool // programs with a global transaction: the AT proxy reads the server clock too (undo_log), so now() values differ
+	r           *hutil.Rng
+	tmp         int
+	uniq        int
 }
 
 func (g *sgen) id() int { return 1 + g.r.Intn(8) }
@@ -98,6 +99,55 @@ func (g *sgen) insert1() Op {
 			sv(fmt.Sprintf("%d.%02d", r.Intn(100), r.Intn(100))), tv("2024-03-04 05:06:07.125"), bv("00ff10"))
 	}
 	return stmt(fmt.Sprintf("INSERT INTO t_item (code, qty, price) VALUES ('j%d', %d, NULL)", g.uniq, r.Intn(9)), false)
+}
+
+// insertWide: the INSERT shapes that work inside a global transaction since the C18 fixes: multi-row with
+// generated keys, NULL / 0 keys, explicit keys (descending from a high base, so that generated keys never
+// reach them), composite keys, single and multi-row, literal and bound
+func (g *sgen) insertWide() Op {
+	g.uniq++
+	r, u := g.r, g.uniq
+	switch r.Intn(7) {
+	case 0:
+		return stmt(fmt.Sprintf("INSERT INTO t_user (name, age) VALUES ('m%d', 1), (?, ?), ('m%d', DEFAULT)", u, u), false, sv("q"), iv(r.Intn(50)))
+	case 1:
+		return stmt(fmt.Sprintf("INSERT INTO t_user (id, name) VALUES (NULL, 'k%d'), (0, 'z%d')", u, u), false)
+	case 2:
+		return stmt("INSERT INTO t_user (id, name, age) VALUES (?, ?, ?)", false, []atrun.Arg{nullv(), iv(0)}[r.Intn(2)], sv("o"+strconv.Itoa(u)), iv(r.Intn(90)))
+	case 3:
+		return stmt(fmt.Sprintf("INSERT INTO t_user (id, name) VALUES (%d, 'e%d')", 100000-u, u), false)
+	case 4:
+		return stmt(fmt.Sprintf("INSERT INTO t_kv (a, b, v) VALUES (%d, 'z', NULL), (?, ?, ?)", 20+u), false, iv(20+u), sv("w"), iv(1000+10*u))
+	case 5:
+		return stmt("INSERT INTO t_kv (a, b, v, f) VALUES (?, ?, ?, ?)", false, iv(60+u), sv("c"), iv(1001+10*u), fv(0.25))
+	}
+	return stmt(fmt.Sprintf("INSERT INTO t_item (code, qty, price) VALUES ('g%d', 1, 1.25), ('h%d', 2, NULL)", u, u), false)
+}
+
+// upsert: INSERT ... ON DUPLICATE KEY UPDATE with a primary-key collision, without one, with a collision on the
+// secondary unique key, and mixed rows; the values written stay unique
+func (g *sgen) upsert() Op {
+	g.uniq++
+	r, u := g.r, g.uniq
+	switch r.Intn(4) {
+	case 0:
+		return stmt("INSERT INTO t_kv (a, b, v) VALUES (?, ?, ?) ON DUPLICATE KEY UPDATE v = VALUES(v) + 100", false, iv(1+r.Intn(2)), sv([]string{"x", "y"}[r.Intn(2)]), iv(2000+10*u))
+	case 1:
+		return stmt(fmt.Sprintf("INSERT INTO t_kv (a, b, v) VALUES (%d, 'n', %d) ON DUPLICATE KEY UPDATE v = VALUES(v) + 100", 100+u, 3000+10*u), false)
+	case 2:
+		return stmt(fmt.Sprintf("INSERT INTO t_kv (a, b, v) VALUES (%d, 's', %d) ON DUPLICATE KEY UPDATE f = 9.5", 140+u, 10+r.Intn(2)), false)
+	}
+	return stmt(fmt.Sprintf("INSERT INTO t_kv (a, b, v) VALUES (1, 'y', %d), (%d, 'k', %d) ON DUPLICATE KEY UPDATE v = VALUES(v) + 1", 4000+10*u, 180+u, 5000+10*u), false)
+}
+
+// replace: REPLACE of an existing and of a new row (routed to the insert executor)
+func (g *sgen) replace() Op {
+	g.uniq++
+	r, u := g.r, g.uniq
+	if r.Chance(1, 2) {
+		return stmt(fmt.Sprintf("REPLACE INTO t_kv (a, b, v, f) VALUES (%d, 'x', %d, 0.5)", 1+r.Intn(3), 6000+10*u), false)
+	}
+	return stmt("REPLACE INTO t_kv (a, b, v) VALUES (?, ?, ?)", false, iv(220+u), sv("r"), iv(7000+10*u))
 }
 
 // update / delete with numeric WHERE (literals or parameters), no primary-key change.
@@ -195,12 +245,20 @@ func (g *sgen) anyOut() Op {
 
 // anyIn: the statement shapes of the clean stream inside a global transaction.
 func (g *sgen) anyIn() Op {
-	switch g.r.Intn(10) {
+	switch g.r.Intn(14) {
 	case 0, 1:
 		return g.sel(false)
 	case 2:
 		return g.sfu()
-	case 3, 4:
+	case 3:
+		return g.insert1()
+	case 10, 11:
+		return g.insertWide()
+	case 12:
+		return g.upsert()
+	case 13:
+		return g.replace()
+	case 4:
 		return g.insert1()
 	case 5, 6, 7:
 		return g.update()
@@ -292,7 +350,7 @@ func (g *sgen) insideOps(n int) []Op {
 	isDML := func(o Op) bool {
 		return strings.HasPrefix(o.SQL, "UPDATE") || strings.HasPrefix(o.SQL, "DELETE") || strings.HasPrefix(o.SQL, "INSERT")
 	}
-	special := func(o Op, localTx bool) Op {
+	special := func(o Op, localTx, inTx bool) Op {
 		switch {
 		case o.Query && r.Chance(1, 3):
 			o.Prepared = true // prepared queries (plain and locking reads): Stmt.QueryContext
@@ -304,18 +362,12 @@ func (g *sgen) insideOps(n int) []Op {
 		if r.Chance(1, 5) {
 			o.Plain = true
 		}
-		if !o.Plain && g.noInterp {
-			// with an xid-carrying context and interpolateParams off: UPDATE/DELETE only with bound arguments (the
-			// finding region: nothing is applied), no INSERT (applied, then its image query is refused), queries free
-			for tries := 0; tries < 50 && isDML(o) && (strings.HasPrefix(o.SQL, "INSERT") || len(o.Args) == 0) && !strings.Contains(o.SQL, "name = 'n"); tries++ {
-				if r.Chance(1, 2) {
-					o = g.update()
-				} else {
-					o = g.sel(false)
-				}
-			}
+		if !o.Plain && g.noParseTime && inTx && strings.Contains(o.SQL, "t_item") && isDML(o) {
+			// parseTime off: a statement whose image holds a temporal column fails; inside an explicit transaction the
+			// outcome depends on whether it was applied before the image query: not generated there (docs)
+			o = g.sel(false)
 		}
-		if !o.Plain && localTx && strings.Contains(o.SQL, "FOR UPDATE") && !o.Prepared && !(g.noInterp && len(o.Args) > 0) {
+		if !o.Plain && localTx && strings.Contains(o.SQL, "FOR UPDATE") && !o.Prepared {
 			o = g.sel(false) // a locking read with an xid context inside a transaction begun without one: not generated (docs)
 		}
 		return o
@@ -329,7 +381,7 @@ func (g *sgen) insideOps(n int) []Op {
 				for strings.HasPrefix(o.SQL, "CREATE") || strings.HasPrefix(o.SQL, "DROP") {
 					o = g.anyIn() // DDL commits implicitly: keep it out of explicit transactions
 				}
-				o = special(o, local)
+				o = special(o, local, true)
 				o.Conn = "c1"
 				ops = append(ops, o)
 			}
@@ -340,7 +392,7 @@ func (g *sgen) insideOps(n int) []Op {
 			ops = append(ops, Op{K: k, Conn: "c1"})
 			continue
 		}
-		ops = append(ops, special(g.anyIn(), false))
+		ops = append(ops, special(g.anyIn(), false, false))
 	}
 	return ops
 }
@@ -362,7 +414,9 @@ func GenOutside(r *hutil.Rng, i int) Program {
 func GenInside(r *hutil.Rng, i int) Program {
 	g := &sgen{r: r, noNow: true}
 	p := Program{Setup: setup(r), Params: []string{"interpolateParams=true&parseTime=true&multiStatements=true",
-		"interpolateParams=false&parseTime=true&multiStatements=true", "interpolateParams=true&parseTime=true"}[r.Intn(3)]}
+		"interpolateParams=false&parseTime=true&multiStatements=true", "interpolateParams=true&parseTime=true",
+		"interpolateParams=true&parseTime=false&multiStatements=true", "interpolateParams=false&parseTime=false"}[r.Intn(5)]}
+	g.noParseTime = strings.Contains(p.Params, "parseTime=false")
 	g.noInterp = !interpolates(p.Params)
 	for k := 0; k < 1+r.Intn(3); k++ {
 		if r.Chance(1, 2) {
@@ -430,7 +484,7 @@ func GenMalformed(r *hutil.Rng, i int) Program {
 }
 
 // FindingPreds are the input predicates of the findings listed under C16.
-var FindingPreds = []string{"where.string-literal", "stmt.prepared-in-gtx"}
+var FindingPreds = []string{"where.string-literal", "stmt.prepared-in-gtx", "dsn.parsetime-off.temporal"}
 
 // GenFinding: a minimal program inside the predicate.
 func GenFinding(pred string, r *hutil.Rng, i int) Program {
@@ -443,6 +497,13 @@ func GenFinding(pred string, r *hutil.Rng, i int) Program {
 		} else {
 			o = stmt(fmt.Sprintf("DELETE FROM t_item WHERE code = '%s'", []string{"a1", "a2", "b1"}[r.Intn(3)]), false)
 		}
+	case "dsn.parsetime-off.temporal":
+		if r.Chance(1, 2) {
+			o = stmt("DELETE FROM t_item WHERE qty >= ?", false, iv(r.Intn(3)))
+		} else {
+			g.uniq++
+			o = stmt("INSERT INTO t_item (code, qty, price, ts, bin) VALUES (?, ?, ?, ?, ?)", false, sv("k"+strconv.Itoa(g.uniq)), iv(r.Intn(9)), sv("1.50"), tv("2024-03-04 05:06:07.125"), bv("00ff10"))
+		}
 	case "stmt.prepared-in-gtx":
 		o = g.update()
 		if r.Chance(1, 3) {
@@ -451,7 +512,11 @@ func GenFinding(pred string, r *hutil.Rng, i int) Program {
 		o.Prepared = true // UPDATE / DELETE only: a prepared INSERT is applied before its image query fails
 	}
 	after := []Op{g.update(), stmt("UPDATE t_user SET age = age + 1 WHERE id = 1", false), g.sel(true)}
-	return Program{Setup: setup(r), Segs: []Segment{{Gtx: true, Ops: []Op{g.sel(false), o, g.update()}}, {Ops: after}}}
+	params := ""
+	if pred == "dsn.parsetime-off.temporal" {
+		params = "interpolateParams=true&parseTime=false&multiStatements=true"
+	}
+	return Program{Setup: setup(r), Params: params, Segs: []Segment{{Gtx: true, Ops: []Op{g.sel(false), o, g.update()}}, {Ops: after}}}
 }
 
 // GenXAMix: one global transaction with one autocommit statement on the pool between
